@@ -39,6 +39,7 @@ fn main() {
         "sub" => sub::engine_sub(&rt, cases, &mut out),
         "sse" => sse::engine_sse(&rt, cases, &mut out),
         "patch" => fsops::engine_patch(&rt, cases, &mut out),
+        "pathguard" => fsops::engine_pathguard(&rt, cases, &mut out),
         other => {
             eprintln!("unknown engine {other}");
             std::process::exit(2);
